@@ -9,6 +9,11 @@ From XV Require Corr.RunC20.
 From XV Require Corr.RunC06.
 From XV Require Corr.RunC16.
 From XV Require Corr.RunC14.
+From XV Require Corr.RunC18.
+From XV Require Corr.RunSession.
+From XV Require Corr.RunC08.
+From XV Require Corr.RunC02.
+From XV Require Corr.RunC01.
 (* REQUIRE-INSERTION-POINT: add "From XV Require Corr.RunCxx." above this line *)
 Open Scope Z_scope.
 
@@ -21,5 +26,10 @@ Definition dispatch (prop : Z) : sx -> sx :=
   if prop =? 6 then RunC06.run_C06 else
   if prop =? 16 then RunC16.run_C16 else
   if prop =? 14 then RunC14.run_C14 else
+  if prop =? 18 then RunC18.run_C18 else
+  if (prop =? 3) || (prop =? 4) || (prop =? 11) then RunSession.run_session else
+  if prop =? 8 then RunC08.run_C08 else
+  if prop =? 2 then RunC02.run_C02 else
+  if prop =? 1 then RunC01.run_C01 else
   (* DISPATCH-INSERTION-POINT: add "if prop =? NN then RunCNN.run_CNN else" above this line *)
   fun _ => decode_error.
